@@ -145,8 +145,6 @@ func classify(err error) string {
 		return "terr"
 	case errors.Is(err, context.Canceled):
 		return "ctx"
-	case err.Error() == "acme: nonce not found": // the one error the package builds with errors.New in fetchNonce
-		return "nononce"
 	}
 	return "other"
 }
